@@ -252,6 +252,8 @@ Proof.
   - apply andb_prop in FR. destruct FR as [NP NQ]. eapply exec_swap_g; eauto.
   - apply andb_prop in FR. destruct FR as [FR HM]. apply andb_prop in FR. destruct FR as [NS BF].
     eapply exec_opmod_g; eauto.
+  - apply andb_prop in FR. destruct FR as [FR FE]. apply andb_prop in FR. destruct FR as [NS BF].
+    eapply exec_opdef_g; eauto.
 Qed.
 
 (* ------------------------------------------------------------------ a loop body *)
